@@ -1,7 +1,7 @@
 (* C04 - DFA Boolean operations compute exact set operations on languages. *)
 From Coq Require Import List Arith Bool.
 From AV Require Import Base.Util Spec.Lang Spec.FA Model.Decide Model.Product Model.Build Model.DFAOps
-     Proofs.DFAOps.
+     Proofs.Decide Proofs.DFAOps Proofs.DFAOps2.
 Import ListNotations.
 
 (* union / intersection / difference / symmetric difference of valid DFAs over a common alphabet
@@ -46,10 +46,64 @@ Theorem C04_expr_trees : forall S e, leaves_ok S e ->
 Proof. exact dexpr_spec. Qed.
 Print Assumptions C04_expr_trees.
 
+(* to_complete: the result is a valid, complete DFA over the same alphabet with the same verdict on
+   EVERY word (also words with foreign symbols: both sides reject them) *)
+Theorem C04_to_complete : forall m, valid_dfa m = true ->
+  valid_dfa (to_complete_m m) = true /\ complete (to_complete_m m) /\
+  d_syms (to_complete_m m) = d_syms m /\
+  forall w, dfa_acc (to_complete_m m) w = dfa_acc m w.
+Proof.
+  intros m Hv. destruct (to_complete_spec m Hv) as (H1 & H2 & _ & H3 & H4). repeat split; assumption.
+Qed.
+Print Assumptions C04_to_complete.
+
+(* complement (partial or complete operand): a valid DFA over the same alphabet that flips the verdict
+   on every word over the alphabet and rejects every word with a foreign symbol *)
+Theorem C04_complement : forall m, valid_dfa m = true ->
+  valid_dfa (complement_m m) = true /\ d_syms (complement_m m) = d_syms m /\
+  (forall w, over (d_syms m) w -> dfa_acc (complement_m m) w = negb (dfa_acc m w)) /\
+  (forall w, ~ over (d_syms m) w -> dfa_acc (complement_m m) w = false).
+Proof. exact complement_spec. Qed.
+Print Assumptions C04_complement.
+
+Theorem C04_complement_lang : forall m, valid_dfa m = true ->
+  L_dfa (complement_m m) =L l_compl (d_syms m) (L_dfa m).
+Proof. exact complement_lang. Qed.
+Print Assumptions C04_complement_lang.
+
+(* expression trees that also use complement: the result decides the tree's Boolean semantics on every
+   word over the common alphabet S and rejects every other word *)
+Theorem C04_expr_trees_with_complement : forall S e, leaves_okc S e ->
+  exists R, deval e = Ok R /\ valid_dfa R = true /\ d_syms R = S /\
+            (forall w, over S w -> dfa_acc R w = dsem e w) /\
+            (forall w, ~ over S w -> dfa_acc R w = false).
+Proof. exact dexprc_spec. Qed.
+Print Assumptions C04_expr_trees_with_complement.
+
+(* to_partial(minify=False): never an error (the two state searches always have enough fuel); the result
+   is a valid DFA over the same alphabet with the same verdict on EVERY word *)
+Theorem C04_to_partial : forall m, valid_dfa m = true ->
+  exists R, to_partial_m m = Ok R /\ valid_dfa R = true /\ d_syms R = d_syms m /\
+            forall w, dfa_acc R w = dfa_acc m w.
+Proof. exact to_partial_spec. Qed.
+Print Assumptions C04_to_partial.
+
 Example C04_example :
   let A := mkdfa [0;1] [0;1] [(0,[(0,1)]);(1,[(1,0)])] 0 [1] true in
   let B := mkdfa [0] [0;1] [(0,[(0,0);(1,0)])] 0 [0] false in
   valid_dfa A = true /\ valid_dfa B = true /\ same_syms A B = true /\
   match binop_m Diff B A with Ok R => map (dfa_acc R) [[]; [0]; [0;1]; [1]] | Err _ => [] end
     = [true; false; true; true].
+Proof. vm_compute. repeat split. Qed.
+
+Example C04_example_unary :
+  let A := mkdfa [0;1;2] [0;1] [(0,[(0,1)]);(1,[(1,0);(0,2)]);(2,[(0,2)])] 0 [1] true in
+  valid_dfa A = true /\ d_partial A = true /\
+  length (d_states (to_complete_m A)) = 4 /\
+  map (dfa_acc (to_complete_m A)) [[]; [0]; [0;1]; [1]; [0;0]; [7]] = [false; true; false; false; false; false] /\
+  map (dfa_acc (complement_m A)) [[]; [0]; [0;1]; [1]; [0;0]; [7]] = [true; false; true; true; true; false] /\
+  match to_partial_m A with
+  | Ok R => (d_states R, map (dfa_acc R) [[]; [0]; [0;1]; [1]; [0;0]; [7]])
+  | Err _ => ([], [])
+  end = ([0;1], [false; true; false; false; false; false]).
 Proof. vm_compute. repeat split. Qed.
